@@ -154,6 +154,7 @@ func runHist(c c03Case) interface{} {
 	defer g.close()
 	defer g.cleanup(stubs, true)
 	pickers := map[int]clusters.EndpointPicker{}
+	held := map[int]*clusters.ClusterInfo{} // ClusterInfo objects kept by a caller (stale after a deletion)
 	steps := []c03Step{}
 	for _, op := range c.Ops {
 		st := c03Step{Res: "ok", Picked: -1, Code: 0, Stub: -1}
@@ -214,6 +215,27 @@ func runHist(c c03Case) interface{} {
 				break
 			}
 			e, err := p.Pop()
+			if err != nil {
+				st.Res = "none"
+				break
+			}
+			st.Picked = epID(e.Endpoint)
+		case "delete": // the UpstreamCluster object is deleted: controller delete path -> DeleteWithStop
+			must(g.remove(c03Cluster))
+		case "hold":
+			info, ok := g.ctrl.Manager.Get(c03Cluster)
+			if !ok {
+				st.Res = "nocluster"
+				break
+			}
+			held[op.Slot] = info
+		case "pickone":
+			info, ok := held[op.Slot]
+			if !ok {
+				st.Res = "noslot"
+				break
+			}
+			e, err := info.PickOne()
 			if err != nil {
 				st.Res = "none"
 				break
